@@ -16,6 +16,8 @@ from vlib.trace import reached, concrete
 LAST_FAILURE = None
 THOROUGH = os.environ.get("VERIF_TIER", "quick") == "thorough"
 LA = 7 if THOROUGH else 5
+LN2 = 3 if THOROUGH else 2            # the two-name condition
+LCM = 5 if THOROUGH else 3            # the condition that goes through instantiate_namespace
 
 
 def _fail(**kw):
@@ -51,7 +53,7 @@ def c08_name_nested(a: str, b: str) -> bool:
     """
     Two arguments, the first one itself templated: names are concatenated in order, each part capitalised
     at its own first letter only (`Tmpl` + `A` + inner `B` + second).
-    pre: is_ident(a, 1, 3) and is_ident(b, 1, 3)
+    pre: is_ident(a, 1, LN2) and is_ident(b, 1, LN2)
     pre: not (kf_open('C08-capitalise') and (a[0] in a[1:] or a[0] in b or b[0] in b[1:]))
     post: _
     """
@@ -73,7 +75,7 @@ def c08_class_and_members(a: str) -> bool:
     """
     Through instantiate_namespace: class `Tmpl<ns::a>` is named Tmpl+Cap(a) and refers to gt::Tmpl<ns::a>;
     the member template to meth+Cap(a) / meth<ns::a>; the function to fun+Cap(a) / fun<ns::a>.
-    pre: is_ident(a, 1, LA - 1) and a != "This"
+    pre: is_ident(a, 1, LCM) and a != "This"
     pre: not (kf_open('C08-capitalise') and a[0] in a[1:])
     post: _
     """
